@@ -71,7 +71,9 @@ pub fn gen(rng: &mut Rng, tier: Tier) -> Scn {
     // Raptor FDT of 2-3 symbols, Reed-Solomon without parity symbol. Objects bring their own OTI.
     if rng.chance(0.12) {
         s.spec.oti = if rng.chance(0.6) {
-            OtiSpec::new(Scheme::Raptor, *rng.pick(&[256u16, 400, 512, 700]), 64, 1, true)
+            // (with a small maximum block length the FDT is cut into several blocks: a small one of 2-3 symbols
+            // next to large ones of 4 must be refused as well)
+            OtiSpec::new(Scheme::Raptor, *rng.pick(&[64u16, 128, 256, 400, 512, 700]), *rng.pick(&[4u32, 5, 8, 64, 64]), 1, true)
         } else {
             OtiSpec::new(Scheme::Rs28, *rng.pick(&[64u16, 512, 1400]), 64, 0, true)
         };
@@ -84,6 +86,13 @@ pub fn gen(rng: &mut Rng, tier: Tier) -> Scn {
             if o.oti.is_none() {
                 o.oti = Some(OtiSpec::new(Scheme::NoCode, 16, 8, 0, rng.chance(0.5)));
             }
+        }
+    }
+    // max_transfer_count = 0 (the object is still transmitted once): it must be announced like any other
+    if rng.chance(0.06) {
+        let i = rng.below(s.objects.len() as u64) as usize;
+        if s.objects[i].carousel.is_none() {
+            s.objects[i].max_transfer_count = 0;
         }
     }
     Scn { sender: s }
